@@ -43,22 +43,13 @@ def _resume(case, tr0, acc):
     rnd = random.Random(case["seed"] ^ 0x5EED)
     if rnd.random() < 0.4 or len(tr0.ticks) < 4:
         return
-    k = rnd.randint(2, max(2, len(tr0.ticks) - 1))
-    holder = {}
-
-    def after_tick(runner, tick):
-        holder["n"] = holder.get("n", 0) + 1
-        if holder["n"] == k and "snap" not in holder:
-            tr = engine_run._CUR["trace"]
-            try:
-                holder["snap"] = json.loads(json.dumps(tr.handler.ctx.to_dict()))
-            except Exception as e:  # noqa: BLE001
-                holder["err"] = repr(e)
-
-    engine_run.run_case(case["spec"], extra={"after_tick": after_tick})
-    snap = holder.get("snap")
-    if snap is None:
+    n_yields = tr0.extra.get("n_yields") or 0
+    _tr, snaps = engine_run.run_with_snapshots(case["spec"])
+    cands = [e for e in snaps if e["snap"] is not None]
+    if not cands:
         return
+    ent = rnd.choice(cands)
+    k, snap = ent["k"], ent["snap"]
     waiters = []
     for sname, w in snap["workers"].items():
         for cw in w["collected_waiters"]:
